@@ -282,6 +282,75 @@ def rule_TR4(rep, prog, ex, q, ts):
                                 % name, sample={"fn": name, "idle->": repr(t.new)})
 
 
+def rule_MP6(rep, prog, q):
+    rid = rep.rule("C01-MP6", "root queue thread requests: a pending-thread reservation on dgq_pending is never left outstanding (every return after the "
+                   "reservation is reached with the outstanding count known zero); the worker gives the pool thread back with release and re-pokes; the "
+                   "drain re-pokes when more items follow", floor=4)
+    fn = prog.fn("_dispatch_root_queue_poke_slow")
+    rep.saw(fn)
+    F = frozenset(["dgq_pending"])
+    resv = [i for i in fn.all_insts() if (i.op == "atomicrmw" and i.d["rmw"] == "add" and (prog.fields(i) & F)) or (i.op == "cmpxchg" and (prog.fields(i) & F))]
+    if not resv:
+        rep.unknown(rid, "no reservation on dgq_pending found in _dispatch_root_queue_poke_slow")
+    for r in resv:
+        amount = r.ops[1] if r.op == "atomicrmw" else r.ops[2]
+        # lineage of the outstanding count
+        L = set()
+        if amount[0] == "i":
+            L.add(amount[1])
+        changed = True
+        while changed:
+            changed = False
+            for i in fn.all_insts():
+                if i.id in L:
+                    continue
+                ops = [o[0] for o in i.ops] if i.op == "phi" else i.ops
+                if i.op in ("phi", "select", "add", "sub", "zext", "sext", "trunc") and any(o[0] == "i" and o[1] in L for o in ops):
+                    if i.op == "select":
+                        ops = i.ops[1:]
+                        if not any(o[0] == "i" and o[1] in L for o in ops):
+                            continue
+                    L.add(i.id)
+                    changed = True
+        ctx = paths.PathCtx(fn)
+        if r.op == "cmpxchg":
+            for u in fn.users(r):
+                if u.op == "extractvalue" and u.d.get("idx") == [1]:
+                    ctx.truth[u.id] = True
+        res = paths.walk(fn, r, lambda i: False, ctx=ctx)
+        bad = []
+        for kind, inst, cx, path in res:
+            if kind != "exit":
+                continue
+            if not any(cx.value(["i", v]) in (paths.NULL, ("c", 0)) for v in L):
+                bad.append(path)
+        rep.require(rid, not bad, r.loc, fn.name, "pending-reservation-leaked",
+                    "_dispatch_root_queue_poke_slow returns after reserving thread requests on dgq_pending on a path where the outstanding request count was "
+                    "not established to be zero (neither given back nor turned into threads): every later request sees 'still pending' and the pool never "
+                    "grows again (path %s)" % (bad[0] if bad else None), sample={"reservation": r.loc, "exit_paths": len([x for x in res if x[0] == "exit"])})
+    fn = prog.fn("_dispatch_worker_thread")
+    rep.saw(fn)
+    dec = [i for i in fn.all_insts() if i.op == "atomicrmw" and i.d["rmw"] == "sub" and (prog.fields(i) & F)]
+    back = [i for i in fn.all_insts() if i.op == "atomicrmw" and i.d["rmw"] == "add" and "dgq_thread_pool_size" in prog.fields(i)]
+    poke = calls_named(fn, ("_dispatch_root_queue_poke", "_dispatch_root_queue_poke_slow"))
+    ok = len(dec) >= 1 and bool(back) and all(ord_has_release(b.d["ord"]) for b in back) and bool(poke) and all(any(fn.dominates(b, p) for b in back) for p in poke)
+    rep.require(rid, ok, fn.file, fn.name, "worker-exit-protocol",
+                "_dispatch_worker_thread must consume its pending request, give the thread back to dgq_thread_pool_size with release and then re-poke the "
+                "queue (an item enqueued while the pool was exhausted would otherwise wait forever)", sample={"dec_pending": len(dec), "pool_inc": [b.d["ord"] for b in back], "pokes": len(poke)})
+    fn = prog.fn("_dispatch_root_queue_drain_one")
+    rep.saw(fn)
+    poke = calls_named(fn, ("_dispatch_root_queue_poke",))
+    rep.require(rid, bool(poke), fn.file, fn.name, "drain-one-repoke",
+                "_dispatch_root_queue_drain_one must re-poke the root queue when it leaves more items behind", sample={"pokes": len(poke)})
+    fn = prog.fn("_dispatch_root_queue_poke")
+    rep.saw(fn)
+    probe = [i for i in fn.all_insts() if i.op == "call" and i.callee == "_dispatch_queue_class_probe"] + \
+            [i for i in fn.all_insts() if i.op == "load" and "dq_items_tail" in prog.fields(i) and i.d.get("ord") == "seq_cst"]
+    slow = calls_named(fn, "_dispatch_root_queue_poke_slow")
+    rep.require(rid, bool(probe) and bool(slow), fn.file, fn.name, "poke-probe",
+                "_dispatch_root_queue_poke must probe the tail before deciding not to request a thread", sample={"probes": len(probe), "slow": len(slow)})
+
+
 def run(rep, tier="quick", srcdir=None, only=None):
     prog, units = load(UNITS, tier, srcdir)
     rep.units = units
@@ -302,6 +371,17 @@ def run(rep, tier="quick", srcdir=None, only=None):
         rule_MP3_OD5(rep, prog, q)
     if want("C01-TR4"):
         rule_TR4(rep, prog, ex, q, ts)
+    if want("C01-MP6"):
+        rule_MP6(rep, prog, q)
+    if want("C03-MP2"):
+        # queues chained through target queues: the level-by-level acquire/release discipline (shared with C03)
+        from . import C03
+        C03.rule_MP2(rep, prog, q)
+    if want("C05-WR3"):
+        # sync callers are released only by a real hand-off (shared with C05)
+        from . import C05
+        p2 = ir.Program(build.facts_for(["shims/lock"], srcdir=srcdir))
+        C05.rule_WR3(rep, p2)
 
 MANIFEST = {
     "technique": "atomic state-word transition extraction over LLVM IR (bit-level abstract domain) + must-pass-through / dominance rules on the CFG",
